@@ -40,6 +40,7 @@ int main(int argc, char** argv) {
   if (word_offsets < 0) word_offsets = 0;
   vf_rng_state = seed * 0x9E3779B97F4A7C15ull + 12345;
   vf_log_open(out);
+  vf_watchdog = 100;
 #if MI_PADDING
   padding = 1;
 #endif
